@@ -599,6 +599,16 @@ impl Repr {
         *self = other;
     }
 
+    #[cfg(feature = "verif-hooks")]
+    pub(crate) fn verif_ref_count(&self) -> Option<usize> {
+        if self.is_heap_buffer() {
+            // SAFETY: We just checked the discriminant to make sure we're heap allocated
+            Some(unsafe { self.as_heap_buffer() }.reference_count().load(Relaxed))
+        } else {
+            None
+        }
+    }
+
     #[inline(always)]
     pub(crate) fn is_heap_buffer(&self) -> bool {
         self.last_byte() == LastByte::HeapMarker as u8
